@@ -5,6 +5,7 @@
 //! * `j`      - `J`, a second, differently represented implementation of `Queryable` (C15)
 //! * `addr`   - node identity by address: maps `*const T` of every node of a document to its location
 pub mod addr;
+pub mod ast;
 pub mod j;
 pub mod model;
 
